@@ -282,8 +282,7 @@ def obs_term(enc, res):
 
 # ------------------------------------------------------------------------------------------------ stage B, part 1: merge matrix
 REQ_DFLT_FULL = [(r1, r2, d1, d2) for r1 in (0, 1) for r2 in (0, 1) for d1 in (None, 0, 1) for d2 in (None, 0, 1)]
-REQ_DFLT_QUICK = [(0, 0, None, None), (1, 0, 0, None), (0, 1, None, 0), (1, 1, 0, 0), (0, 0, 1, 1), (0, 1, 0, 1), (1, 0, 1, 0), (0, 0, None, 1),
-                  (1, 1, 1, None), (0, 0, 0, 1)]
+REQ_DFLT_QUICK = [(0, 0, None, None), (1, 0, 0, None), (0, 1, None, 0), (1, 1, 0, 0), (0, 0, 1, 1), (1, 0, None, 1)]
 
 
 def merge_case(enc, c):
@@ -321,7 +320,7 @@ def matrix_cases(rng, tier):
                         continue
                     out.append({"v1": i, "v2": j, "r1": (i + j) % 2, "r2": 0, "d1": d1, "d2": d2, "ds1": None, "ds2": None, "ex1": None, "ex2": None})
     # random: extra defaults (non-finite floats, huge ints: the Crash paths), descriptions / examples present or absent
-    n = 1500 if tier == "quick" else 12000
+    n = 1000 if tier == "quick" else 12000
     for _ in range(n):
         out.append({"v1": rng.randrange(nv), "v2": rng.randrange(nv), "r1": rng.randrange(2), "r2": rng.randrange(2),
                     "d1": rng.choice([None, 0, 1, 2, 3, 4]), "d2": rng.choice([None, 0, 1, 2, 3, 4]),
@@ -1078,8 +1077,21 @@ def run(run, tier, replay=None):
     if replay:
         rp = [v.get("replay_input") for v in json.load(open(replay))["violations"] if v.get("replay_input")]
 
-    # ---------------- stage B.1 + direct oracle on merge_properties
     mcases = matrix_cases(rng, tier) if rp is None else [r["case"] for r in rp if r["type"] == "merge"]
+    ccases = [collect_doc(rng) for _ in range(400 if tier == "quick" else 6000)] if rp is None else [(r["components"], r["child"]) for r in rp if r["type"] == "collect"]
+    # ---------------- stage C end to end: documents are generated / executed in worker processes while stage B runs
+    if rp is None:
+        specs = fixed_specs() + (exhaustive_pair_specs()[::2] if tier == "quick" else exhaustive_pair_specs())
+        specs += [rand_doc_spec(rng, tier) for _ in range(100 if tier == "quick" else 1500)]
+        run.exhaustive = True
+    else:
+        specs = [r["spec"] for r in rp if r["type"] == "doc"]
+    from concurrent.futures import ProcessPoolExecutor
+    import multiprocessing
+    pool = ProcessPoolExecutor(max_workers=12, mp_context=multiprocessing.get_context("fork"))
+    futures = [pool.submit(stage_c_worker, sp) for sp in specs]
+
+    # ---------------- stage B.1 + direct oracle on merge_properties
     terms, evs, infos, sym_pending = [], [], [], []
     for c in mcases:
         r = merge_case(enc, c)
@@ -1111,12 +1123,6 @@ def run(run, tier, replay=None):
             run.violation("oracle", {"replay_input": {"type": "merge", "case": c}, **info, "reverse": back[0], "note": "one order merges, the reverse order is a diagnostic (no defaults involved)"})
 
     # ---------------- stage B.2 collect
-    ccases = []
-    if rp is None:
-        for _ in range(500 if tier == "quick" else 6000):
-            ccases.append(collect_doc(rng))
-    else:
-        ccases = [(r["components"], r["child"]) for r in rp if r["type"] == "collect"]
     cterms, cevs, cinfos = [], [], []
     for comps, child in ccases:
         term, ev, info = collect_case(enc, comps, child)
@@ -1158,21 +1164,14 @@ def run(run, tier, replay=None):
                 run.violation("oracle", {"replay_input": {"type": "merge", "case": c}, **info, "types": [s1, s2], "guard_g_merge": k not in outside,
                                          "note": "member order changes the merged type" + ("" if k in outside else " inside the proved domain (g_merge = true)")})
 
-    # ---------------- stage C end to end
-    if rp is None:
-        specs = fixed_specs() + exhaustive_pair_specs()
-        specs += [rand_doc_spec(rng, tier) for _ in range(140 if tier == "quick" else 1500)]
-        run.exhaustive = True
-    else:
-        specs = [r["spec"] for r in rp if r["type"] == "doc"]
+    # ---------------- stage C verdicts
     guard_queries = []
     run.extra["stage_c"] = {"documents": len(specs), "generations": 3 * len(specs), "roundtrip_instances": 0, "composed_classes_executed": 0}
-    if specs:
-        from concurrent.futures import ProcessPoolExecutor
-        import multiprocessing
-        with ProcessPoolExecutor(max_workers=14, mp_context=multiprocessing.get_context("fork")) as ex:
-            for obs in ex.map(stage_c_worker, specs, chunksize=4):
-                judge_doc(run, obs, guard_queries)
+    try:
+        for fu in futures:
+            judge_doc(run, fu.result(), guard_queries)
+    finally:
+        pool.shutdown(wait=True, cancel_futures=True)
     if guard_queries:
         gt, owner = [], []
         for qi, q in enumerate(guard_queries):
